@@ -26,14 +26,6 @@ Definition agree (c : case) : bool :=
 
 (* ---- monitor: the property, decided on an observed trace ---------------- *)
 
-(* expected (index, value) pairs of one side, in source order *)
-Fixpoint expected_from (w : bool) (xs : list nat) (cs : list bool) (i : nat) : list (nat * nat) :=
-  match xs, cs with
-  | x :: xr, c :: cr => if Bool.eqb c w then (i, x) :: expected_from w xr cr (S i)
-                        else expected_from w xr cr (S i)
-  | _, _ => []
-  end.
-
 (* walk the ops with their observations.  remL/remR: what each side has still
    to yield; prev: #pulls observed before this op *)
 Fixpoint mon (callable : bool) (ops : list side) (observed : list obs)
@@ -56,10 +48,10 @@ Fixpoint mon (callable : bool) (ops : list side) (observed : list obs)
   | _, _ => false
   end.
 
-Definition last_pulls (observed : list obs) : nat :=
-  match rev observed with (_, (p, _, _, _)) :: _ => p | [] => 0 end.
-Definition last_evals (observed : list obs) : nat :=
-  match rev observed with (_, (_, _, e, _)) :: _ => e | [] => 0 end.
+Definition pulls_of (o : obs) : nat := let '(_, (p, _, _, _)) := o in p.
+Definition evals_of (o : obs) : nat := let '(_, (_, _, e, _)) := o in e.
+Definition last_pulls (observed : list obs) : nat := fold_left (fun _ o => pulls_of o) observed 0.
+Definition last_evals (observed : list obs) : nat := fold_left (fun _ o => evals_of o) observed 0.
 
 Definition ok (c : case) : bool :=
   match c with
